@@ -97,32 +97,24 @@ def digitsVal : List Nat → Nat → Nat
   | [], acc => acc
   | c :: cs, acc => digitsVal cs (acc * 10 + (c - 48))
 
-/-- `str::parse::<u64>()`: optional `+`, at least one ASCII digit, no overflow. -/
-def parseU64 (s : List Nat) : Option Nat :=
-  let ds := match s with
-    | 43 :: rest => rest
-    | _ => s
+/-- Strip one leading `+`. -/
+def stripPlus : List Nat → List Nat
+  | 43 :: rest => rest
+  | s => s
+
+/-- At least one ASCII digit, only digits, value below `limit`. -/
+def parseDigits (ds : List Nat) (limit : Nat) : Option Nat :=
   if ds.isEmpty || !ds.all isDigit then none
-  else
-    let v := digitsVal ds 0
-    if v < two64 then some v else none
+  else if digitsVal ds 0 < limit then some (digitsVal ds 0) else none
+
+/-- `str::parse::<u64>()`: optional `+`, at least one ASCII digit, no overflow. -/
+def parseU64 (s : List Nat) : Option Nat := parseDigits (stripPlus s) two64
 
 /-- `str::parse::<i64>()` as a 64-bit pattern: optional `+`/`-`, digits, range check. -/
 def parseI64 (s : List Nat) : Option Nat :=
   match s with
-  | 45 :: ds =>
-    if ds.isEmpty || !ds.all isDigit then none
-    else
-      let v := digitsVal ds 0
-      if v ≤ two63 then some (i64Pat (-(v : Int))) else none
-  | _ =>
-    let ds := match s with
-      | 43 :: rest => rest
-      | _ => s
-    if ds.isEmpty || !ds.all isDigit then none
-    else
-      let v := digitsVal ds 0
-      if v < two63 then some v else none
+  | 45 :: ds => (parseDigits ds (two63 + 1)).map fun v => i64Pat (-(v : Int))
+  | _ => parseDigits (stripPlus s) two63
 
 /-- `ScalarValue`. `utf8 s pf`: `pf` is what `s.parse::<f64>()` returns (bit pattern), supplied
 by the caller because the decimal-to-binary conversion of std is not modelled. -/
